@@ -139,8 +139,11 @@ def generate(ctx, fx, fxpath):
     # missing check would accept), and a seeded sample of the rest
     rnd = random.Random(ctx.seed)
 
+    # quick: degenerate-B and degenerate-C repeat degenerate-A with other stakes: a seeded half of their depth-1 descriptions is enough
+    thin = {names.get("degenerate-B"), names.get("degenerate-C")} if quick else set()
+
     def cls(r):
-        if r["h"]["d"] <= 1:
+        if r["h"]["d"] <= 1 and not (r["h"]["d"] == 1 and r["h"]["cfg"] in thin and rnd.random() < 0.5):
             return 0
         if (r["ca"] and not r["en"]) or (r.get("cac") and not r.get("enac")):
             return 1
@@ -169,7 +172,7 @@ def generate(ctx, fx, fxpath):
         groups[k] = out
         if k == 2:
             ctx.cov["tempting_strata"] = len(names)
-    caps = {0: 10 ** 9, 1: 200, 2: 300, 3: 60} if quick else {0: 10 ** 9, 1: 2000, 2: 3000, 3: 1000}
+    caps = {0: 10 ** 9, 1: 160, 2: 240, 3: 50} if quick else {0: 10 ** 9, 1: 2000, 2: 3000, 3: 1000}
     sel = []
     for k in sorted(groups):
         sel += groups[k][:caps[k]]
@@ -187,7 +190,7 @@ def generate(ctx, fx, fxpath):
     return behs, design_violation
 
 
-DEFAULTS = {"cf": "std", "cvotes": [], "cagg": "ok", "cfidx": 1}
+DEFAULTS = {"cf": "std", "cvotes": [], "cagg": "ok", "cfidx": 1, "lb": 0}
 
 
 def normalise(ctx, behs, fxpath):
@@ -294,6 +297,10 @@ def run(ctx):
         "epochs: configurations epoch-E1 / epoch-E2 share validator main keys and ONE verifier engine; in E2 validator 1 has a new BLS key and "
         "validators 2, 3 swapped stakes; E1 headers are verified before E2 headers in the same process (status / kind changes between epochs "
         "are not modelled: they are masked by the known eligibility defect)",
+        "ecdsa-A: a protocol version with EnableBls = false, handed to the verifier by the stub chain (params.Versions is not touched): every "
+        "precommit carries its own ECDSA signature, the voter is the recovered key, no aggregate",
+        "lookback-U: the chain's current validator set = the look-back set + a newcomer (stake 60) registered after the look-back block; "
+        "descriptions may make the look-back validator trie unreadable (expected: refusal by VerifySeal / VerifyHeader / VerifyHeaders)",
         "VerifyAcHeader (light-client path) is observed at certificate rounds and judged by the certificate clause only (AcCertificateQuorum)",
         "a proposer with zero seats or of offline/house kind is documented, not alarmed on (the statement only asks that the credential verifies)",
     ]
